@@ -9,6 +9,11 @@ VERIF = os.path.dirname(os.path.dirname(os.path.abspath(__file__)))
 KNOWN_FILE = os.path.join(VERIF, 'known_findings.json')
 
 
+def outroot():
+    """where evidence/ and out/ are written (the self-test redirects this to a scratch directory)"""
+    return os.environ.get('KV_OUTROOT') or VERIF
+
+
 def norm_detail(s):
     """normalise a detail string: no line numbers, no event serials, single spaces"""
     s = re.sub(r'#\d+(\.\d+)?', '#', s)
@@ -118,7 +123,7 @@ def finish(ctx, rule_text, explanation, technique, extra_cov=None):
     for k in known.get('findings', []):
         kmap[(k['property'], k['rule'], k['construct'], norm_detail(k['detail']))] = k
     prop = ctx.prop
-    outdir = os.path.join(VERIF, 'out', prop)
+    outdir = os.path.join(outroot(), 'out', prop)
     violations = []
     matched = []
     for f in ctx.findings:
@@ -186,8 +191,8 @@ def finish(ctx, rule_text, explanation, technique, extra_cov=None):
         'wall_s': round(time.time() - ctx.t0, 3),
         'violations': len(violations),
     }
-    os.makedirs(os.path.join(VERIF, 'evidence'), exist_ok=True)
-    with open(os.path.join(VERIF, 'evidence', '%s.json' % prop), 'w') as fh:
+    os.makedirs(os.path.join(outroot(), 'evidence'), exist_ok=True)
+    with open(os.path.join(outroot(), 'evidence', '%s.json' % prop), 'w') as fh:
         json.dump(ev, fh, indent=1, sort_keys=True, default=str)
     print('%s: %d obligations, %d discharged, %d paths, %d functions, %d known findings, %d violations (%.2fs)' % (
         prop, nob, ndis, ctx.paths, len(ctx.functions), len(matched), len(violations), time.time() - ctx.t0))
